@@ -11,7 +11,7 @@
 (* evaluates on every Serve event (C10: on all ordered pairs of a block).  *)
 (* Total monitor: offending event indices are collected in `bad`.          *)
 (***************************************************************************)
-EXTENDS Integers, Sequences, FiniteSets, TLC, Json, IOUtils, Origins, OriginSyntax
+EXTENDS Integers, Sequences, FiniteSets, TLC, Json, IOUtils, Origins, OriginSyntax, ReqParse
 
 CONSTANT Prop
 
@@ -36,15 +36,12 @@ IsPreflightReq(e) == e.m = "OPTIONS" /\ e.no > 0 /\ Len(e.acrm) > 0
 (* C03 - CORS response headers are well-formed and never over-grant.       *)
 (***************************************************************************)
 PreflightOnly == {"ACAM", "ACAH", "ACAPN", "ACMA"}
-\* `ob` = the bytes that are READ as the first Origin value: e.o1b itself for the property as stated;
-\* e.o1u (brackets around a colon-free host removed) for the classification of known finding F4.
-C03okWith(e, ob) ==
+\* `allowed`: is the first Origin value the serialization of an origin the configuration allows?
+C03okWith(e, allowed) ==
   LET h    == e.resp.hdrs
       acao == Get(h, "ACAO")
       acac == Get(h, "ACAC")
       hasO == e.no > 0
-      so   == IF hasO THEN SerializedOrigin(ob) ELSE NotAnOrigin
-      allowed == so.ok /\ (sem.any \/ Allowed(pats, [scheme |-> so.scheme, host |-> so.host, port |-> so.port]))
       star == acao = <<"*">>
       echo == Len(acao) = 1 /\ hasO /\ e.acaob[1] = e.o1b
   IN /\ Len(acao) <= 1
@@ -58,10 +55,29 @@ C03okWith(e, ob) ==
      /\ ("ACMA" \in DOMAIN h => h["ACMA"] = MaxAgeValue(sem))             \* 7
      /\ ("ACEH" \in DOMAIN h => TokenSet(h, "ACEH") = Range(sem.exposeSet) /\ Len(h["ACEH"]) = 1)
      /\ DOMAIN h \subseteq {"Vary", "ACAO", "ACAC", "ACAM", "ACAH", "ACAPN", "ACMA", "ACEH"}
-C03ok(e) == C03okWith(e, e.o1b)
-\* Known finding F4: the response is right for the origin obtained by dropping the brackets around a
-\* host that is not an IPv6 literal (the lenient scanner does just that), but wrong for the bytes received.
-C03isF4(e) == ~C03ok(e) /\ e.o1u # e.o1b /\ C03okWith(e, e.o1u)
+
+\* the property as stated: strict reading of the bytes (OriginSyntax) + Origins!Allowed
+StrictAllowed(e) ==
+  LET so == IF e.no > 0 THEN SerializedOrigin(e.o1b) ELSE NotAnOrigin
+  IN so.ok /\ (sem.any \/ Allowed(pats, [scheme |-> so.scheme, host |-> so.host, port |-> so.port]))
+C03ok(e) == C03okWith(e, StrictAllowed(e))
+
+\* Known finding F4: the lenient request-side scanner (ReqParse.tla) strips the brackets around ANY host, so a
+\* bracketed host that is not an IPv6 literal is looked up by its content. An offending event is an instance of F4
+\* exactly when its host is bracketed and the response is right under that lenient reading and wrong only for it.
+ValueOf(h) == IF h # <<>> /\ h[1] = 91 THEN SubSeq(h, 2, Len(h) - 1) ELSE h
+LenientAllowed(e) ==
+  LET pr == IF e.no > 0 THEN Parse(e.o1b) ELSE [ok |-> FALSE] IN
+  pr.ok /\ (sem.any \/ \E p \in pats :
+               /\ p.scheme = pr.scheme
+               /\ IF p.wild THEN Len(pr.host) > Len(p.host) + 1 /\ IsSuffixOf(<<46>> \o p.host, pr.host)
+                            ELSE pr.host = ValueOf(p.host)
+               /\ (p.port = AnyPort \/ p.port = pr.port))
+BracketedHost(b) == \E i \in 1..(Len(b) - 3) : b[i] = 58 /\ b[i + 1] = 47 /\ b[i + 2] = 47 /\ b[i + 3] = 91
+                                                /\ \A j \in 1..(i - 1) : b[j] # 58
+C03isF4(e) == /\ ~C03ok(e) /\ e.no > 0 /\ BracketedHost(e.o1b)
+              /\ ~SerializedOrigin(e.o1b).ok
+              /\ C03okWith(e, LenientAllowed(e))
 
 (***************************************************************************)
 (* C16 - with debug off, preflight responses disclose nothing beyond what  *)
